@@ -670,7 +670,22 @@ func main() {
 		os.Stderr = f
 	}
 	in := bufio.NewReaderSize(os.Stdin, 1<<20)
-	out := bufio.NewWriter(os.Stdout)
+	// Answers are written by their own goroutine: the caller writes a whole batch of requests before it
+	// reads any answer, so this loop must keep draining stdin even while stdout is not being read.
+	answers := make(chan []byte, 1<<16)
+	written := make(chan struct{})
+	go func() {
+		out := bufio.NewWriterSize(os.Stdout, 1<<16)
+		for b := range answers {
+			out.Write(b)
+			out.WriteByte('\n')
+			if len(answers) == 0 {
+				out.Flush()
+			}
+		}
+		out.Flush()
+		close(written)
+	}()
 	for {
 		line, err := in.ReadBytes('\n')
 		if len(line) > 1 {
@@ -685,14 +700,12 @@ func main() {
 			if e != nil {
 				b, _ = json.Marshal(obj{"ok": false, "err": "cannot encode result: " + e.Error()})
 			}
-			out.Write(b)
-			out.WriteByte('\n')
-		}
-		if in.Buffered() == 0 || err != nil {
-			out.Flush()
+			answers <- b
 		}
 		if err != nil {
 			break
 		}
 	}
+	close(answers)
+	<-written
 }
